@@ -56,7 +56,11 @@ func verifMakeResp(r verifResp) *protoCommonV1.TaskResponse {
 // C12 (root bookkeeping): n responses of arbitrary kinds arrive in an arbitrary order; the final
 // error, the data handed to the aggregator and the completion do not depend on the order.
 func verifC12Responses() {
-	n := 1 + verifChoose("responses", 3)
+	maxN := 3
+	if verifThorough() {
+		maxN = 5
+	}
+	n := 1 + verifChoose("responses", maxN)
 	var rec *verifRecAgg
 	newGroupingAgg = func(timeutil.Interval, int, timeutil.TimeRange, aggregation.AggregatorSpecs) aggregation.GroupingAggregator {
 		rec = &verifRecAgg{}
@@ -65,7 +69,7 @@ func verifC12Responses() {
 	mc := newMetricContext(stdctx.Background(), nil)
 	mc.SetTracker(trackerpkg.NewStageTracker(&flow.TaskContext{Ctx: stdctx.Background()}))
 	plan := &models.PhysicalPlan{}
-	nodes := []string{"n0", "n1", "n2"}
+	nodes := []string{"n0", "n1", "n2", "n3", "n4"}
 	for i := 0; i < n; i++ {
 		plan.Targets = append(plan.Targets, &models.Target{Indicator: nodes[i]})
 	}
